@@ -126,31 +126,35 @@ example : (step (st1 5 [{ bk 0 0 with healthy := false }, bk 1 1 (backup := true
 
 /-! ### sticky cookies -/
 
-/-- When sticky ids are unique in the cluster, a cookie whose backend is
-    eligible always wins. -/
-theorem C12_sticky_wins_partial (s : State) (c st : Nat) (e : Env) (l : BList) (b : Backend)
+/-- A cookie wins whenever a backend it designates is eligible: the request goes,
+    through the sticky path, to an eligible member of the cluster carrying that
+    sticky id (no uniqueness assumption: `find_sticky` takes the first holder
+    that can accept a connection). -/
+theorem C12_sticky_wins (s : State) (c st : Nat) (e : Env) (l : BList) (b : Backend)
+    (hl : s.get c = some l) (hb : b ∈ l.backends) (hs : b.sticky = some st) (he : Eligible s.now b) :
+    ∃ b', (step s (.sticky c st e)).2.picked = some b' ∧ (step s (.sticky c st e)).2.viaSticky = true ∧
+      b' ∈ l.backends ∧ b'.sticky = some st ∧ Eligible s.now b' := by
+  obtain ⟨b', hf⟩ := findSticky_isSome (l := l) hb hs ((eligible_iff _ _).mp he)
+  obtain ⟨hm, hs', hc'⟩ := findSticky_spec hf
+  exact ⟨b', by simp [step, hl, hf, Out.picked], by simp [step, hl, hf, Out.viaSticky], hm, hs',
+    (eligible_iff _ _).mpr hc'⟩
+
+/-- and when the sticky id designates one backend only, that backend is the one returned -/
+theorem C12_sticky_wins_unique (s : State) (c st : Nat) (e : Env) (l : BList) (b : Backend)
     (hl : s.get c = some l) (hb : b ∈ l.backends) (hs : b.sticky = some st) (he : Eligible s.now b)
     (huniq : ∀ x ∈ l.backends, ∀ y ∈ l.backends, x.sticky = some st → y.sticky = some st → x = y) :
-    (step s (.sticky c st e)).2.picked = some b ∧ (step s (.sticky c st e)).2.viaSticky = true := by
-  have hf : l.backends.find? (fun x => x.sticky == some st) = some b :=
-    find?_unique hb (by simp [hs]) (by
-      intro x hx y hy px py
-      exact huniq x hx y hy (by simpa using px) (by simpa using py))
-  have hfs : findSticky l st s.now = some b := by
-    simp [findSticky, hf, (eligible_iff _ _).mp he]
-  simp [step, hl, hfs, Out.picked, Out.viaSticky]
+    (step s (.sticky c st e)).2.picked = some b := by
+  obtain ⟨b', hp, _, hm, hs', _⟩ := C12_sticky_wins s c st e l b hl hb hs he
+  rw [hp, huniq b' hm b hb hs' hs]
 
 example : ∃ (s : State) (l : BList) (b : Backend), s.get 0 = some l ∧ b ∈ l.backends ∧ b.sticky = some 7 ∧ Eligible s.now b :=
   ⟨st1 5 [bk 0 0, bk 1 1 (sticky := some 7)] .random, _, bk 1 1 (sticky := some 7), rfl, by simp, rfl, by decide⟩
 
-/-- Without uniqueness the statement fails (`find_sticky` stops at the first
-    holder of the id): two backends share sticky id 7, the first is unhealthy,
-    the second is eligible, and the request is load-balanced to a third. -/
-theorem C12_sticky_wins_counterexample :
-    ∃ (s : State) (l : BList) (b : Backend), s.get 0 = some l ∧ b ∈ l.backends ∧ b.sticky = some 7 ∧
-      Eligible s.now b ∧ (step s (.sticky 0 7 env0)).2.picked ≠ some b :=
-  ⟨st1 5 [{ bk 0 0 (sticky := some 7) with healthy := false }, bk 2 2, bk 1 1 (sticky := some 7)] (.roundRobin 0),
-   _, bk 1 1 (sticky := some 7), rfl, by simp, rfl, by decide, by decide⟩
+/-- regression (former counterexample, repaired by `fix: a sticky id selects the
+    first holder that can accept a connection`): two backends share sticky id 7,
+    the first is unhealthy, the second is eligible — the cookie now reaches it. -/
+example : (step (st1 5 [{ bk 0 0 (sticky := some 7) with healthy := false }, bk 2 2, bk 1 1 (sticky := some 7)]
+      (.roundRobin 0)) (.sticky 0 7 env0)).2.picked = some (bk 1 1 (sticky := some 7)) := by decide
 
 /-! ### affinity -/
 
@@ -177,16 +181,15 @@ theorem C12_affinity_stable (l1 l2 : BList) (now1 now2 n1 n2 k : Nat) (e1 e2 : E
 
 example : (selectChoices { backends := [bk 0 0, bk 1 1, bk 2 2], policy := .hrw 0 } 5 (envK 9)).2 = [bk 2 2] := by decide
 
-/-- Maglev with a key, same captured address set and same table content: the
-    same backend is returned **provided the table resolves one of the
-    candidates** (some table entry names the address of an eligible backend). -/
-theorem C12_affinity_stable_maglev_partial (l1 l2 : BList) (now1 now2 n1 n2 k : Nat) (built : List Nat) (e1 e2 : Env)
+/-- Maglev with a key, same captured address set and same table content:
+    whenever the eligible candidates are the same, the same backend is returned —
+    through the table when an entry names a candidate, otherwise through
+    `candidates[key % len]`. (Keyless calls use the round-robin cursor and are
+    not affinity calls.) -/
+theorem C12_affinity_stable_maglev (l1 l2 : BList) (now1 now2 n1 n2 k : Nat) (built : List Nat) (e1 e2 : Env)
     (hp1 : l1.policy = .maglev built n1) (hp2 : l2.policy = .maglev built n2)
     (hk1 : e1.key = some k) (hk2 : e2.key = some k) (hpf : e1.pref = e2.pref)
-    (hc : (candidates now1 l1.backends).map ident = (candidates now2 l2.backends).map ident)
-    (hcov : maglevLookup e1.pref
-              (if built.isEmpty then (candidates now1 l1.backends).map (·.addr) else built)
-              (candidates now1 l1.backends) ≠ none) :
+    (hc : (candidates now1 l1.backends).map ident = (candidates now2 l2.backends).map ident) :
     (selectChoices l1 now1 e1).2.map ident = (selectChoices l2 now2 e2).2.map ident := by
   unfold selectChoices
   simp only
@@ -202,10 +205,21 @@ theorem C12_affinity_stable_maglev_partial (l1 l2 : BList) (now1 now2 n1 n2 k : 
       rw [map_addr_of_ident hc]
     have hlk := maglevLookup_ident e1.pref
       (if built.isEmpty then (candidates now1 l1.backends).map (·.addr) else built) _ _ hc
-    rw [← hpf, ← hb]
+    have hget := getElem?_ident (k % (candidates now1 l1.backends).length) _ _ hc
+    rw [← hpf, ← hb, ← length_of_ident hc]
     cases h1 : maglevLookup e1.pref
         (if built.isEmpty then (candidates now1 l1.backends).map (·.addr) else built) (candidates now1 l1.backends) with
-    | none => exact absurd h1 hcov
+    | none =>
+      rw [h1] at hlk
+      cases h2 : maglevLookup e1.pref
+          (if built.isEmpty then (candidates now1 l1.backends).map (·.addr) else built) (candidates now2 l2.backends) with
+      | some b2 => rw [h2] at hlk; simp at hlk
+      | none =>
+        simp only
+        generalize (candidates now1 l1.backends)[k % (candidates now1 l1.backends).length]? = o1 at hget
+        generalize (candidates now2 l2.backends)[k % (candidates now1 l1.backends).length]? = o2 at hget
+        cases o1 <;> cases o2 <;> simp at hget ⊢
+        exact hget
     | some b1 =>
       rw [h1] at hlk
       cases h2 : maglevLookup e1.pref
@@ -216,17 +230,13 @@ theorem C12_affinity_stable_maglev_partial (l1 l2 : BList) (now1 now2 n1 n2 k : 
 example : (selectChoices { backends := [bk 0 0, bk 1 1, bk 2 2], policy := .maglev [0, 1, 2] 0 } 5 (envK 9 [1, 0, 2])).2
     = [bk 1 1] := by decide
 
-/-- Without that proviso the statement fails: when no table entry names an
-    eligible backend (their weights earned them no slot) the lookup falls back
-    to round robin, and the same key is sent to two different backends although
-    nothing else changed. -/
-theorem C12_affinity_stable_maglev_counterexample :
-    ∃ (l : BList) (e : Env) (k : Nat), e.key = some k ∧
-      (∃ built n, l.policy = .maglev built n) ∧
-      (selectChoices l 5 e).1.backends = l.backends ∧
-      (selectChoices l 5 e).2.map ident ≠ (selectChoices (selectChoices l 5 e).1 5 e).2.map ident :=
-  ⟨{ backends := [{ bk 0 0 with healthy := false }, bk 1 1, bk 2 2], policy := .maglev [0, 1, 2] 0 },
-   envK 9 [0], 9, rfl, ⟨_, _, rfl⟩, by decide, by decide⟩
+/-- regression (former counterexample, repaired by `fix: keep a key pinned when the
+    Maglev table holds no eligible backend`): no table entry names an eligible
+    backend, and the same key is now sent to the same backend twice in a row. -/
+example :
+    let l : BList := { backends := [{ bk 0 0 with healthy := false }, bk 1 1, bk 2 2], policy := .maglev [0, 1, 2] 0 }
+    (selectChoices l 5 (envK 9 [0])).2 = [bk 2 2] ∧
+      (selectChoices (selectChoices l 5 (envK 9 [0])).1 5 (envK 9 [0])).2 = [bk 2 2] := by decide
 
 /-! ### counters -/
 
